@@ -147,7 +147,10 @@ example : (grade tables (grade tables (init exStore) nasty).w probe).result = (g
 
 /-- The same tables with the `suppressions` reset removed from `clear`: the obligation fails … -/
 def forgetful : Tables :=
-  { tables with clearSteps := tables.clearSteps.filter (fun s => s != .reset "suppressions" .clearCall) }
+  { tables with clearSteps := tables.clearSteps.filter (fun s =>
+      match s with
+      | .reset f _ => f != "suppressions"     -- however the tree under test writes that reset
+      | .restoreEach _ => true) }
 
 example : tableOk forgetful = false := by decide
 
